@@ -305,6 +305,8 @@ def run_cases(ctx, cases):
 
 
 def run(ctx):
+    import C01ext
+    C01ext.start_prebuild()      # the extension's harness compiles beside everything below
     # compile while TLC runs
     bres = {}
 
@@ -358,11 +360,16 @@ def run(ctx):
         "blob compression, file compression and the number of pool threads do not occur in the structural model (passed through); the check "
         "assigns them: quick = one combination per structural point, cycling; thorough = the full product",
     ]
+    # extension (specs/FileSpec*.tla): osmium::io::File / metadata_options / Header upstream of the option vector, CRC as a second observer
+    C01ext.run_part(ctx)
 
 
 def replay(ctx, path):
     with open(path) as fh:
         d = json.load(fh)
+    if str(d.get("signature", "")).startswith("ext:"):
+        import C01ext
+        return C01ext.replay_case(ctx, d)
     c = d["case"]["case"]
     stats = run_cases(ctx, [c])
     ctx.evaluations = sum(e["n"] for e in c["input"]) + 1
